@@ -30,7 +30,15 @@ def decItem (j : Json) : R Item := do
   let k ← fldStr j "k"
   let line ← fldNat j "line"
   match k with
-  | "call" => pure (.call (← fldStr j "f") line)
+  | "call" =>
+    match j.getObjVal? "args" with
+    | .ok _ =>
+      let args ← (← fldArr j "args").toList.mapM decAstArg
+      let kwargs ← (← fldArr j "kwargs").toList.mapM (decKw decAstArg)
+      let rtA ← (← fldArr j "rt").toList.mapM decRt
+      let rtK ← (← fldArr j "rtkw").toList.mapM (decKw decRt)
+      pure (.callArgs (← fldStr j "f") args kwargs rtA rtK line)
+    | .error _ => pure (.call (← fldStr j "f") line)
   | "ref" => pure (.ref (← fldStr j "f") line)
   | "load" => pure (.load (← fldStr j "path") line)
   | "eval" => pure (.evalCall (← fldStr j "f") line)
